@@ -7,6 +7,15 @@ func init() {
 		const bp = "pkg/bpv7"
 		const rt = "pkg/routing"
 
+		// Translated code (extract/golean.go): the hop count block's arithmetic as Lean definitions
+		x.Raw("namespace Go")
+		g := x.GoLean(bp)
+		g.Translate("HopCountBlock", "IsExceeded")
+		g.Translate("HopCountBlock", "Increment")
+		g.Translate("HopCountBlock", "Decrement")
+		g.Emit()
+		x.Raw("end Go")
+
 		// F1: block type codes and block processing control flags the model hard-codes
 		x.Nat("typePayload", x.MustConst(bp, "ExtBlockTypePayloadBlock"))
 		x.Nat("typePreviousNode", x.MustConst(bp, "ExtBlockTypePreviousNodeBlock"))
